@@ -609,14 +609,32 @@ class FindReads(Visitor):
 
     def visit_Conditional(self, o, **kwargs):
         self._register_reads(self._symbols_from_expr(o.condition))
+        self._visit_branches((o.body, o.else_body), **kwargs)
+
+    def _visit_branches(self, branches, **kwargs):
         # Visit each branch with the original candidate set and then take the
-        # union of both afterwards to include all potential read-after-writes
-        candidate_set = self.candidate_set.copy() if self.candidate_set is not None else None
-        self.visit(o.body, **kwargs)
-        self.candidate_set, candidate_set = candidate_set, self.candidate_set
-        self.visit(o.else_body, **kwargs)
-        if self.candidate_set is not None:
-            self.candidate_set |= candidate_set
+        # union of all afterwards to include all potential read-after-writes
+        original_set = self.candidate_set.copy() if self.candidate_set is not None else None
+        candidate_set = None
+        for branch in branches:
+            if original_set is not None:
+                self.candidate_set = original_set.copy()
+            self.visit(branch, **kwargs)
+            if original_set is not None:
+                candidate_set = self.candidate_set if candidate_set is None else candidate_set | self.candidate_set
+        if candidate_set is not None:
+            self.candidate_set = candidate_set
+
+    def visit_MultiConditional(self, o, **kwargs):
+        self._register_reads(self._symbols_from_expr((o.expr, o.values)))
+        # Without a default case, none of the bodies may be executed
+        self._visit_branches(o.bodies + (o.else_body,), **kwargs)
+
+    visit_TypeConditional = visit_MultiConditional
+
+    def visit_MaskedStatement(self, o, **kwargs):
+        # The masked assignments do not overwrite the variables completely
+        self._register_reads(o.uses_symbols)
 
     def visit_Loop(self, o, **kwargs):
         self._register_reads(self._symbols_from_expr(o.bounds))
@@ -624,13 +642,15 @@ class FindReads(Visitor):
         if self.active and self.candidate_set is not None:
             # remove the loop variable as a variable of interest
             self.candidate_set.discard(o.variable)
-        self.visit(o.children, **kwargs)
+        # The loop body may not be executed at all
+        self._visit_branches((o.children, ()), **kwargs)
         if active:
             self.reads.discard(o.variable)
 
     def visit_WhileLoop(self, o, **kwargs):
         self._register_reads(self._symbols_from_expr(o.condition))
-        self.visit(o.children, **kwargs)
+        # The loop body may not be executed at all
+        self._visit_branches((o.children, ()), **kwargs)
 
 
 class FindWrites(Visitor):
